@@ -20,7 +20,7 @@ func init() {
 	vfRegister("VF_C03_shipped_params", VF_C03_shipped_params)
 }
 
-const vfMenuSize = 20
+const vfMenuSize = 21
 
 type vfOut struct{ text string }
 
@@ -42,7 +42,8 @@ func vfSvc(ctor string, args ...any) input.Service {
 //	a missing service in the same list, 13 parameter cycle + missing parameter,
 //	14/15 a value service whose field / call has a missing service / parameter,
 //	16 valid with parameters only, 17 valid and empty, 18 valid with a todo service sorted
-//	first, 19 valid with parameter strings that look like argument notations
+//	first, 19 valid with parameter strings that look like argument notations, 20 a decorator
+//	on an unused tag with a missing parameter
 func vfMenu(k int) input.Input {
 	shared, contextual := input.ScopeShared, input.ScopeContextual
 	switch k {
@@ -89,6 +90,8 @@ func vfMenu(k int) input.Input {
 	case 18: // valid: a todo service whose name sorts before the services that use it
 		yes := true
 		return input.Input{Services: map[string]input.Service{"a": {Todo: &yes}, "b": vfSvc("NewB", "@a"), "c": vfSvc("NewC", "@b")}}
+	case 20: // a decorator on a tag no service carries, with a missing parameter
+		return input.Input{Services: map[string]input.Service{"svc": vfSvc("NewX")}, Decorators: []input.Decorator{{Tag: "unused", Decorator: "D", Args: []any{"%nope%"}}}}
 	case 19: // valid: parameter strings that look like argument notations are plain strings
 		return input.Input{Params: map[string]any{"h": "@handle", "t": "!tagged x", "v": "!value V", "g": "$gontainer"}, Services: map[string]input.Service{"svc": vfSvc("NewX", "%h%")}}
 	case 7: // a cycle together with a missing service and a missing parameter
@@ -108,7 +111,7 @@ func vfMenuClasses(k int) (grammar, mparam, msvc, cycle, scope bool) {
 	switch k {
 	case 1:
 		grammar = true
-	case 2, 10, 15:
+	case 2, 10, 15, 20:
 		mparam = true
 	case 3, 9, 14:
 		msvc = true
@@ -328,7 +331,7 @@ func VF_C10_contract() {
 	if !envFault && (sc.formatErr || sc.importErr || sc.writeErr) {
 		vfAssert(r.err != nil, "a formatting or write failure fails the build")
 	}
-	valid := sc.menu == 0 || sc.menu >= 16
+	valid := sc.menu == 0 || (sc.menu >= 16 && sc.menu <= 19)
 	if !envFault && aMatched && !valid {
 		vfAssert(r.err != nil, "a configuration with a grammar, reference, cycle or scope defect is rejected")
 		vfAssert(!strings.Contains(r.stdout, "Generate code"), "a rejected configuration never reaches code generation")
